@@ -326,8 +326,11 @@ def run_approx(job, acc):
                 if os.path.exists(copy):
                     os.remove(copy)
                 try:
-                    cc = space.build(desc)
-                    got = cg.sat.approx_model_count(cc, dict(a)) if a else cg.sat.approx_model_count(cc)
+                    # every fourth circuit: the same call was made before the circuit's last in-place edit
+                    variant = "stale" if (_idx // job["of"]) % 4 == 0 else None
+                    case["variant"] = variant
+                    _cc, got = space.call_with_history(
+                        desc, (lambda x: cg.sat.approx_model_count(x, dict(a))) if a else cg.sat.approx_model_count, variant)
                 except Exception as e:  # noqa: BLE001
                     acc.violation("approx", f"raises:{common.exc_name(e)}", case, repr(e))
                     continue
@@ -490,7 +493,8 @@ def replay(case, job):
         want = expected_count(c, a)
         acc.transitions += 1
         try:
-            got = cg.sat.approx_model_count(c, dict(a)) if a else cg.sat.approx_model_count(c)
+            _cc, got = space.call_with_history(
+                case["desc"], (lambda x: cg.sat.approx_model_count(x, dict(a))) if a else cg.sat.approx_model_count, case.get("variant"))
             if got != want:
                 acc.violation("approx", "approx-count-wrong", case, f"returned {got}, expected {want}")
         except Exception as e:  # noqa: BLE001
